@@ -23,6 +23,10 @@ CLAIMED = {
    technique="stateless model checking of the real MTGraph runner: deviation-bounded DFS over thread interleavings and timeout firings of small generated graphs (chains, tee, rate changers) over capacity-1/2 streams, all/several add orders, against a pure reference result",
    text="Each generated graph (source of length 0..2cap+1, one library or harness stage, sink; tee to two sinks; 1- and 2-page streams; several/all add orders) is run on the real MTGraph::run under the controlled scheduler; every execution with at most d deviations must terminate (no deadlock, livelock or step-horizon) and leave every sink equal to the reference result computed by executable specifications.",
    note="Trusted: as C03, plus the executable specifications of the menu blocks (vcommon::specs). Graphs with more than 4 block threads and long sources are out of reach of exhaustive interleaving search.", ref="DESIGN.md 3-E2, 5-C05"),
+ "C06": dict(level="model_checking", engine="graphx",
+   technique="bounded-exhaustive program enumeration: every graph of a declared family (chains of 0-2 stages, tee, diamond, merge, packet stage) x every permutation of the add order x source lengths around buffer capacity x stream sizes, each run on the real Graph::run and re-run to test quiescence, against executable specifications",
+   text="All programs of the family (about 17 000 in the quick tier) are executed on the real single-threaded runner with virtual time; run() must return Ok with every sink equal to the reference result, and calling every block again (a second run()) must move nothing: so run() returns only at quiescence, independent of add order, stream size, and of blocks that report a wait/EOF from a call in which they moved data.",
+   note="Trusted: executable specifications of the menu blocks; activity counter hook for the quiescence test. Menu blocks are deterministic Kahn-style blocks.", ref="DESIGN.md 3-E4, 5-C06"),
  "C07": dict(level="model_checking", engine="mt",
    technique="stateless model checking of both runners: deviation-bounded DFS with a canceller task whose cancel() lands between any two scheduling points, and a fault-injecting block failing on its k-th call at every position of a 3-chain",
    text="For infinite and finite sources on Graph and MTGraph: every placement (up to d deviations) of cancel() must make run() return Ok with all threads joined and at most 2 further work() calls per block; a block failing on call k (k=1..3) at each of 3 positions must make run() return exactly that error - not panic, hang or Ok.",
@@ -50,6 +54,8 @@ ENGINES = [
   "kind_free_text": "explicit-state search of the real circular buffer, replay-per-state, reference-model oracle"},
 {"name": "envx", "path": "/verif/harness/seq/src/envx.rs", "serves_properties": ["C08", "C09", "C10", "C12", "C16", "C19"],
   "kind_free_text": "bounded-exhaustive enumeration of environment-answer sequences around one real block (harness owns all stream ends), re-execution per sequence"},
+{"name": "graphx", "path": "/verif/harness/seq/src/graphx.rs", "serves_properties": ["C06"],
+  "kind_free_text": "bounded-exhaustive enumeration of small graph programs in all add orders on the real single-threaded runner"},
  {"name": "mt", "path": "/verif/harness/mt/src", "serves_properties": ["C03", "C04", "C05", "C07"],
   "kind_free_text": "stateless model checking: deviation-bounded DFS over schedules of the real code on the shuttle runtime, timeouts as scheduler choices"},
 ]
